@@ -430,8 +430,11 @@ def parse_result(s):
 
 def run(ck):
     ck.gen_from_source()
-    ck.coq_build(["props/C14.vo", "extract/C14_extract.vo"])
-    ck.print_assumptions(["DSP.C14"], ["DSP.C14." + t for t in THEOREMS])
+    ck.coq_build(["props/C14.vo", "props/C14b.vo", "extract/C14_extract.vo"])
+    ck.print_assumptions(["DSP.C14", "DSP.C14b"], ["DSP.C14." + t for t in THEOREMS] +
+                         # the run-level corollary, proved on the runner model (RunnerErase.v): a run depends on the
+                         # instructions only through `erase`, positions excepted
+                         ["DSP.C14b.C14_run_erase", "DSP.C14b.C14_run_pre_to_empty"])
     ck.hygiene()
     ck.ocaml_build()
     ck.harness_build(["c14"])
